@@ -29,6 +29,10 @@ RULE = ("random histories (<= 12 operations quick, <= 60 thorough) over 4-8 vari
         "ASTNode.replace (succeeding; failing with a non-init key / an unknown key), detach, detach_self (also on inner and "
         "on already detached nodes), drop of a variable + gc, read-only calls; biased to content-identical twins and to the "
         "scripts detach->twin->detach/replace, replace of a detached node, drop->re-create; ID_DIGEST_SIZE in {1,2,8}. "
+        "About 60% of the class families validate in their own __post_init__ AFTER super().__post_init__() (a rejected value of "
+        "an int/str property - usually an added non-comparable keyword-only one, so that a replace() setting only it builds the "
+        "replacement under the original's own id - or an id ending in _1/_2): constructor, dataclasses.replace, replace() and "
+        "duplicate() (half-way) then raise with the new node(s) already registered. "
         "After every operation: result (ids exactly), for every node of every held tree id and get_any(id), for every held "
         "root Cls.get(id) strict/non-strict for every class of the family and ASTNode, for every node ever seen whether its "
         "weakref is alive and what get_any(old id) returns. non-trivial = at least 3 operations took effect; distinct = "
@@ -43,7 +47,9 @@ TRUSTED_BASE = [
 ASSUMPTIONS = [
     "class identity is the class name; RUNTIME_TYPE_CHECK is off (pyoak default), child fields are init fields",
     "non-init fields always hold their declared default",
-    "as_dict/as_obj (forced-id path of _deserialize) is outside the modelled operation set",
+    "as_dict/as_obj is outside the operation set of the histories (its registry effect is modelled and proved about separately: "
+    "coq/Model/RegistrySer.v, C03_deser_inv, C03_force_inv, C03_refuted_forced_id_evicts_child)",
+    "validating classes call super().__post_init__() first and raise ValueError afterwards; every class along the MRO cooperates",
 ]
 
 ORIGINS = [
@@ -616,6 +622,11 @@ def gen_cases(rng, tier):
                     continue
             cases.append({"kind": "history+validators" if rules else "history", "input": t,
                           "digest_size": rng.choice([1, 1, 2, 8]), "opts": {"universe": uj, "rules": rj}})
+    # implementation-only probe of the as_dict/as_obj forced-id path, which is proved about in Model/RegistrySer.v but is
+    # not an operation of the run (open finding C03:asobj-forced-id-evicts-live-child): rides on a short valid history
+    if cases:
+        c0 = min(cases, key=lambda c: len(to_text(c["input"])))
+        cases.append(dict(c0, kind="probe:asobj-forced-id", digest_size=1, opts=dict(c0["opts"], probe="asobj_forced_id")))
     return cases
 
 
@@ -960,7 +971,76 @@ def frozen_obs(run):
     return out
 
 
+_PROBE_CLS = []
+
+
+def probe_asobj_forced_id():
+    """A tree serialized while it holds a DETACHED child whose id collides (1-byte digest) with its parent's: reading it
+    back into an empty registry must not leave a referenced, never-detached node that lookup does not return.
+    Returns the violated clause or None."""
+    import gc
+    from dataclasses import dataclass
+
+    from pyoak import config
+    from pyoak.node import ASTNode
+
+    if not _PROBE_CLS:
+        import sys
+        import types
+        m = types.ModuleType("verif_c03_probe")
+        sys.modules[m.__name__] = m
+        exec(compile("from dataclasses import dataclass\nfrom pyoak.node import ASTNode\n"
+                     "@dataclass(frozen=True)\nclass VerifEvLeaf(ASTNode):\n    v: int\n"
+                     "@dataclass(frozen=True)\nclass VerifEvBox(ASTNode):\n    xs: tuple[VerifEvLeaf, ...]\n",
+                     m.__name__, "exec", dont_inherit=True), m.__dict__)
+        _PROBE_CLS.extend([m.VerifEvLeaf, m.VerifEvBox])
+    Leaf, Box = _PROBE_CLS
+    old = config.ID_DIGEST_SIZE
+    config.ID_DIGEST_SIZE = 1
+    try:
+        found = None
+        for v in range(4000):
+            x = Leaf(v)
+            x.detach_self()
+            p = Box((x,))
+            if p.id == x.id:
+                found = (x, p)
+                break
+            p.detach()
+            del x, p
+        if found is None:
+            return None
+        x, p = found
+        d = p.as_dict()
+        p.detach()
+        del x, p, found
+        gc.collect()
+        p2 = Box.as_obj(d)
+        c2 = p2.xs[0]
+        bad = None
+        if ASTNode.get_any(c2.id) is not c2 and ASTNode.get_any(p2.id) is not p2:
+            bad = "both"
+        elif ASTNode.get_any(c2.id) is not c2 and c2 is not p2:
+            bad = "asobj-forced-id-evicts-live-child"
+        elif ASTNode.get_any(p2.id) is not p2:
+            bad = "asobj-forced-id-parent-not-registered"
+        p2.detach()
+        del p2, c2
+        gc.collect()
+        return bad
+    finally:
+        config.ID_DIGEST_SIZE = old
+
+
 def impl(t, case):
+    if (case.get("opts") or {}).get("probe") == "asobj_forced_id":
+        bad = probe_asobj_forced_id()
+        if bad:
+            return Con("ProbeViolation", bad)
+    return impl_history(t, case)
+
+
+def impl_history(t, case):
     from pyoak import config
 
     u = universe_from_json(case["opts"]["universe"])
@@ -1027,7 +1107,15 @@ def compare_with(inp, impl_obs, model_obs, which, frozen=False):
     return diffs
 
 
+def finding_key(inp, impl_obs, model_obs, diffs):
+    if isinstance(impl_obs, Con) and impl_obs.name == "ProbeViolation":
+        return "C03:" + impl_obs.args[0].decode()
+    return None
+
+
 def compare(inp, impl_obs, model_obs):
+    if isinstance(impl_obs, Con) and impl_obs.name == "ProbeViolation":
+        return ["probe:" + impl_obs.args[0].decode()]
     return compare_with(inp, impl_obs, model_obs, C03_IDX)
 
 
